@@ -146,8 +146,8 @@ def cases(tier, seed):
                 vals = vals + CHARS
             for v in vals:
                 it = dict(sk, value=v)
-                cls, _ = R.classify(mnem, it)
-                if cls != "valid":
+                cls, acc = R.classify(mnem, it)
+                if cls != "valid" and not (cls == "open" and callable(acc)):
                     continue
                 for route, sp in routes_for(sk, v, tier):
                     yield {"mnem": mnem, "sk": sk, "v": v, "route": route, "sp": sp}
@@ -223,6 +223,9 @@ def check_case(case):
             res["state"] = "DIAG:" + cell          # refusing a repeated register is as good as ignoring the repetition
             return res
         sk = dict(sk, regs=list(dict.fromkeys(sk["regs"])))
+    if out["kind"] == "DIAG" and v is not None and route in ("lit", "equ_before", "equ_after") and R.classify(mnem, dict(sk, value=v))[0] == "open":
+        res["state"] = "DIAG-open:" + cell          # a form the grammar leaves open (<-n): refusing it is fine, mis-encoding it is not
+        return res
     if out["kind"] != "OK":
         if out["kind"] == "DIAG":
             bad("rejected", want_txt, common.outcome_brief(out))
@@ -261,7 +264,7 @@ def check_case(case):
     if v is not None:
         intent["value"] = value
     cls, acceptor = R.classify(mnem, intent)
-    if cls != "valid":
+    if cls != "valid" and not (cls == "open" and callable(acceptor)):
         # the label landed on a value that makes the statement not core-valid (cannot happen for lit/equ)
         res["state"] = "skip:" + cell
         return res
